@@ -69,6 +69,16 @@ def _probes():
         texts = [b"", b"router1#", b"\nrouter1#", b" \nout\nrouter1# ", b"\n  indented first\nsecond  \n\n\nlast\t\nrouter1#",
                  b"\n\n\nx\n\n\nrouter1#", b"\nabc# \nnot last\nrouter1#", b"\nline\x0b\x0c \nrouter1#", b"\nno prompt at the end\n",
                  b"\r\nwith cr\r\nrouter1#", b"\n\xe9\xff bytes \nrouter1#"]
+        # longer than the search depth, every line ends in a word that alone reads as a prompt ("... strategy#"), and the
+        # byte `depth` before the end lies inside such a word: output cleaning must not look at line suffixes
+        base = b"\n" + b"\n".join(b"  Port-channel%02d, queueing strategy#" % i for i in range(31))
+        for k in range(1, 40):
+            t = base + b"\n" + b"=" * k + b"\nrouter1#"
+            if re.fullmatch(rb"[a-z]{3,6}#", t[-saved[0]:].split(b"\n")[0]) and t[-saved[0] - 1:-saved[0]].isalpha():
+                texts.append(t)
+                break
+        else:
+            raise ValueError("no probe text whose search-depth point lies inside a word")
         for ret in ("\n", "\r\n"):
             args.comms_return_char = ret
             for strip in (True, False):
